@@ -255,6 +255,63 @@ def run(ck):
                 prog, enc = M.op_program(j2, res, cfg, ps)
                 if prog:
                     cases.append((len(cases), f"enc_replay_diag {enc} (run_trace ({prog}) {trace_to_coq(res['trace'])} 0)", j2, res, tag))
+    # ---- the one system call that does the work fails: the operation must fail with that very error and change nothing
+    # ("exactly the effect of the corresponding *at call": when that call does nothing, so does the operation)
+    ftree = [["dir", H("root"), 0o755], ["dir", H("outside"), 0o755], ["dir", H("root/a"), 0o755], ["dir", H("root/a/b"), 0o755],
+             ["file", H("root/a/f"), H("data"), 0o644], ["file", H("root/a/g"), H("other"), 0o644], ["symlink", H("root/l"), H("a")], ["dir", H("root/a/e"), 0o755]]
+    FOPS = [{"k": "create", "path": H("l/newf"), "type": "file", "mode": 0o644}, {"k": "create", "path": H("a/f"), "type": "file", "mode": 0o644},
+            {"k": "create", "path": H("a/../a/newd"), "type": "dir", "mode": 0o755}, {"k": "create", "path": H("a/news"), "type": "symlink", "target": H("f")},
+            {"k": "create", "path": H("a/newh"), "type": "hardlink", "target": H("a/f")}, {"k": "create", "path": H("a/newp"), "type": "fifo", "mode": 0o644},
+            {"k": "create_file", "path": H("a/newcf"), "flags": O["WRONLY"], "mode": 0o600}, {"k": "remove_file", "path": H("l/f")},
+            {"k": "remove_dir", "path": H("a/e")}, {"k": "rename", "src": H("a/f"), "dst": H("a/b/moved"), "flags": 0},
+            {"k": "rename", "src": H("a/f"), "dst": H("a/g"), "flags": 1}, {"k": "rename", "src": H("a/f"), "dst": H("a/g"), "flags": 2}]
+    FERRNOS = [1, 38, 95, 17, 13, 28, 5, 30, 18, 39, 16, 2, 20, 31, 122]   # EPERM ENOSYS EOPNOTSUPP EEXIST EACCES ENOSPC EIO EROFS EXDEV ENOTEMPTY EBUSY ENOENT ENOTDIR EMLINK EDQUOT
+    EFFECT = {"mkdirat", "mknodat", "symlinkat", "linkat", "renameat", "renameat2", "unlinkat"}
+    fbase = [{"id": i + 1, "tree": ftree, "op": op, "snap": "all"} for i, op in enumerate(FOPS)]
+    stats["effect_faults"] = 0
+    for deny in ((), ("openat2",)):
+        tag = ",".join(deny) or "none"
+        _, bl, _ = run_driver_parallel(fbase, deny=deny, tag="c14fb" + tag, shards=4)
+        fjobs = []
+        for bj in fbase:
+            b0 = bl.get(bj["id"])
+            if not b0 or "trace" not in b0:
+                continue
+            fall = [e for e in b0["trace"] if e["c"] not in ("gettid", "geteuid", "close") and not (e["c"] == "fcntl" and e.get("cmd") == 1)]
+            idx = [i for i, e in enumerate(fall) if e["c"] in EFFECT or (e["c"] in ("openat", "openat2") and e.get("flags", 0) & O["CREAT"])]
+            if len(idx) != 1:
+                ck.violation("C14: a single-entry operation issued %d system calls that change the tree (expected exactly one)" % len(idx),
+                             {"job": J.describe(bj), "resolver": "emulated" if deny else "openat2", "calls": [fall[i]["c"] for i in idx]})
+                continue
+            for en in (FERRNOS if thorough else [1, 38, 95, 17, 13, 28]):
+                j = dict(bj)
+                j["id"] = 1000 + len(fjobs)
+                j["policy"] = {"fault": {"at": idx[0], "errno": en}}
+                j["meta"] = {"errno": en, "call": fall[idx[0]]["c"]}
+                fjobs.append(j)
+        fby = {j["id"]: j for j in fjobs}
+        _, fres, _ = run_driver_parallel(fjobs, deny=deny, tag="c14f" + tag)
+        for jid_, res in fres.items():
+            job = fby[jid_]
+            r = res.get("res", {})
+            if "setup_err" in r or not any(e.get("inj") for e in res.get("trace", [])):
+                continue
+            stats["effect_faults"] += 1
+            added, removed, changed, after, before = diff(res.get("snap_before"), res.get("snap_after"))
+            fall = [e for e in res["trace"] if e["c"] not in ("gettid", "geteuid", "close") and not (e["c"] == "fcntl" and e.get("cmd") == 1)]
+            effects = [e["c"] for e in fall if e["c"] in EFFECT or (e["c"] in ("openat", "openat2") and e.get("flags", 0) & O["CREAT"])]
+            desc = {"job": J.describe(job), "resolver": "emulated" if deny else "openat2", "failing_call": job["meta"]["call"], "errno": job["meta"]["errno"],
+                    "outcome": r, "tree_changing_calls_issued": effects, "added": [a.decode("latin1") for a in added],
+                    "removed": [a.decode("latin1") for a in removed], "changed": [a.decode("latin1") for a in changed]}
+            if "panic" in r:
+                ck.violation("C14: operation panicked when its system call failed", desc)
+            elif "err" not in r or r["err"].get("errno") != job["meta"]["errno"]:
+                ck.violation("C14: the system call of a single-entry operation failed, but the operation did not fail with that error", desc)
+            elif added or removed or changed:
+                ck.violation("C14: the system call of a single-entry operation failed, yet the tree changed", desc)
+            elif len(effects) != 1:
+                ck.violation("C14: after its system call failed, a single-entry operation issued another tree-changing call", desc)
+            nontrivial.add(("effect-fault", job["op"]["k"], job["op"].get("type"), job["meta"]["errno"], tag))
     if not ck.proof_broken:
         evals, cerrs = coq_eval([(c[0], c[1]) for c in cases], header="From PV Require Import Replay.", tag="c14")
         if cerrs:
@@ -269,6 +326,7 @@ def run(ck):
                 stats["t1_bad"] += 1
                 ck.violation("T1: model and implementation disagree on a single-entry operation",
                              {"job": J.describe(job), "deny": tag, "replay": rep, "real_outcome": res.get("res")}, False)
+    cov_extra = {"effect_call_fault_runs": stats.get("effect_faults", 0)}
     cov = {
         "evaluations": stats["ops"],
         "distinct_nontrivial": len(nontrivial),
@@ -282,6 +340,8 @@ def run(ck):
         "op_histogram": stats["kinds"], "traces_validated_against_impl": stats["t1_ok"], "t1_mismatches": stats["t1_bad"],
         "disagreements_checked": stats["t1_bad"],
     }
+    cov.update(cov_extra)
+    cov["rule"] = cov["rule"] + "; plus 12 single-entry operations x the errnos {EPERM ENOSYS EOPNOTSUPP EEXIST EACCES ENOSPC ...} injected at the one tree-changing system call"
     assumptions = ["the parent oracle is the kernel's raw openat2(RESOLVE_IN_ROOT) on an identical tree in its own sandbox; directories are identified by creation path",
                    "mode bits are compared by inode type only (umask applies)"]
     return cov, assumptions
